@@ -2604,7 +2604,7 @@ impl Zoned {
         let args: ZonedDifference = other.into();
         let span = args.until_with_largest_unit(self)?;
         if args.rounding_may_change_span() {
-            span.round(args.round.relative(self))
+            span.round(args.round.largest(args.get_largest()).relative(self))
         } else {
             Ok(span)
         }
@@ -2643,7 +2643,7 @@ impl Zoned {
         let args: ZonedDifference = other.into();
         let span = -args.until_with_largest_unit(self)?;
         if args.rounding_may_change_span() {
-            span.round(args.round.relative(self))
+            span.round(args.round.largest(args.get_largest()).relative(self))
         } else {
             Ok(span)
         }
@@ -3992,6 +3992,15 @@ impl<'a> ZonedDifference<'a> {
         ZonedDifference { round: self.round.increment(increment), ..self }
     }
 
+    /// Returns the largest unit of the span computed by this configuration:
+    /// either the one set explicitly or the default.
+    #[inline]
+    fn get_largest(&self) -> Unit {
+        self.round
+            .get_largest()
+            .unwrap_or_else(|| self.round.get_smallest().max(Unit::Hour))
+    }
+
     /// Returns true if and only if this configuration could change the span
     /// via rounding.
     #[inline]
@@ -4011,10 +4020,7 @@ impl<'a> ZonedDifference<'a> {
             return Ok(Span::new());
         }
 
-        let largest = self
-            .round
-            .get_largest()
-            .unwrap_or_else(|| self.round.get_smallest().max(Unit::Hour));
+        let largest = self.get_largest();
         if largest < Unit::Day {
             return zdt1.timestamp().until((largest, zdt2.timestamp()));
         }
